@@ -293,6 +293,10 @@ class Network:
         await self.server_connection.connect()
 
     async def disconnect_server(self):
+        # The watchdog is normally stopped when the connection goes into closing
+        # state, this does not happen if the connection was already closed and
+        # the watchdog is waiting to reconnect
+        self.stop_server_connection_watchdog()
         await self.server_connection.disconnect(CloseReason.REQUESTED)
 
     async def disconnect(self):
@@ -1226,3 +1230,4 @@ class Network:
 
         self._log_connections_task.cancel()
         self._upnp_task.cancel()
+        self._connection_watchdog_task.cancel()
